@@ -114,12 +114,21 @@ fn score_of(n: &Bytes) -> i64 {
     (n.iter().fold(7u64, |a, b| a.wrapping_mul(31).wrapping_add(*b as u64)) % 2001) as i64 - 1000
 }
 
+/// The score as sent and as expected back: one member in eight sits at an infinity.
+fn score_text(n: &Bytes) -> (String, f64) {
+    match score_of(n).rem_euclid(8) {
+        0 if n.len() % 2 == 0 => ("+inf".into(), f64::INFINITY),
+        0 => ("-inf".into(), f64::NEG_INFINITY),
+        _ => (score_of(n).to_string(), score_of(n) as f64),
+    }
+}
+
 fn add_cmd(kind: &Kind, n: &Bytes, ty: u8) -> Vec<Bytes> {
     let b = |s: &str| s.as_bytes().to_vec();
     match kind {
         Kind::Hash => vec![b("HSET"), COLL.to_vec(), n.clone(), value_of(n)],
         Kind::Set => vec![b("SADD"), COLL.to_vec(), n.clone()],
-        Kind::ZSet => vec![b("ZADD"), COLL.to_vec(), score_of(n).to_string().into_bytes(), n.clone()],
+        Kind::ZSet => vec![b("ZADD"), COLL.to_vec(), score_text(n).0.into_bytes(), n.clone()],
         Kind::Keys => match ty % 6 {
             0 => vec![b("SET"), n.clone(), b("v")],
             1 => vec![b("RPUSH"), n.clone(), b("v")],
@@ -179,6 +188,22 @@ fn run_case(server: &mut Server, cs: &Case) -> CaseResult {
     }
     if let Err(e) = pipeline(&mut c, &setup) {
         return CaseResult::infra(e);
+    }
+    // some stable string keys have a history: they once had a short TTL that a plain SET removed;
+    // the iteration starts after that old deadline (an element "present throughout" is present
+    // whatever deadline it used to have)
+    if cs.kind == Kind::Keys && cs.stable.len() % 5 == 0 {
+        let mut again = Vec::new();
+        for (n, t) in cs.stable.iter().filter(|(n, t)| usable(n) && t % 6 == 0).take(6) {
+            again.push(vec![b"SET".to_vec(), n.clone(), b"v".to_vec(), b"PX".to_vec(), b"40".to_vec()]);
+            again.push(add_cmd(&cs.kind, n, *t));
+        }
+        if !again.is_empty() {
+            if let Err(e) = pipeline(&mut c, &again) {
+                return CaseResult::infra(e);
+            }
+            std::thread::sleep(std::time::Duration::from_millis(60));
+        }
     }
     let passes = |n: &Bytes, t: u8| cs.pattern.as_ref().map_or(true, |p| glob_match(p, n)) && cs.type_filter.map_or(true, |f| f % 6 == t % 6);
     let stable: BTreeMap<Bytes, u8> = cs.stable.iter().filter(|(n, _)| usable(n)).cloned().collect();
@@ -267,11 +292,11 @@ fn run_case(server: &mut Server, cs: &Case) -> CaseResult {
             if step == 2 {
                 let ok = match (&cs.kind, &ch[1]) {
                     (Kind::Hash, Frame::Bulk(v)) => *v == value_of(n),
-                    (Kind::ZSet, Frame::Bulk(v)) => std::str::from_utf8(v).ok().and_then(|s| s.parse::<f64>().ok()) == Some(score_of(n) as f64),
+                    (Kind::ZSet, Frame::Bulk(v)) => std::str::from_utf8(v).ok().and_then(|s| s.parse::<f64>().ok()) == Some(score_text(n).1),
                     _ => false,
                 };
                 if !ok {
-                    return fail(format!("{} returned {} with {:?}, expected {}", crate::model::show_cmd(&cmd), show_bytes(n), ch[1], if cs.kind == Kind::Hash { show_bytes(&value_of(n)) } else { score_of(n).to_string() }), "wrong-value", &labels, trace);
+                    return fail(format!("{} returned {} with {:?}, expected {}", crate::model::show_cmd(&cmd), show_bytes(n), ch[1], if cs.kind == Kind::Hash { show_bytes(&value_of(n)) } else { score_text(n).0 }), "wrong-value", &labels, trace);
                 }
             }
             returned.insert(n.clone());
@@ -417,7 +442,7 @@ pub fn run(tier: Tier, seed: u64, replay: Option<Value>) -> i32 {
         tier,
         seed,
         "exploration",
-        "one case = a collection (the key space of a database with keys of all six types, or the fields/members of one hash, set or sorted set) of 0..400 stable elements plus 0..80 volatile ones (names with shared prefixes, glob metacharacters, binary, 1..60 bytes), one full cursor iteration from 0 to 0 with generated COUNT (absent, 1, 2, 3, 7, 10, 11, 100, 1000, 10^6), optional MATCH (12 fixed globs + the C01 glob grammar), TYPE, HSCAN NOVALUES, options in either order, and after each call a generated batch of 0..11 additions and deletions of volatile elements (never of the stable set). Oracle: every stable element that satisfies the filters is returned at least once; every returned element existed at some point and satisfies MATCH (model glob on bytes) and TYPE; HSCAN values and ZSCAN scores are the element's own; the cursor is an unsigned integer; once modifications stop the iteration ends within n/COUNT + 12 calls. Non-trivial = an iteration of >= 3 calls with >= 1 addition and >= 1 deletion of other elements between calls; distinct by hash of the case",
+        "one case = a collection (the key space of a database with keys of all six types, or the fields/members of one hash, set or sorted set) of 0..400 stable elements plus 0..80 volatile ones (names with shared prefixes, glob metacharacters, binary, 1..60 bytes), one full cursor iteration from 0 to 0 with generated COUNT (absent, 1, 2, 3, 7, 10, 11, 100, 1000, 10^6), optional MATCH (12 fixed globs + the C01 glob grammar), TYPE, HSCAN NOVALUES, options in either order, and after each call a generated batch of 0..11 additions and deletions of volatile elements (never of the stable set). Oracle: every stable element that satisfies the filters is returned at least once; every returned element existed at some point and satisfies MATCH (model glob on bytes) and TYPE; HSCAN values and ZSCAN scores (one member in eight at +-inf) are the element's own; some stable keys once had a short TTL that a plain SET removed and that has passed; the cursor is an unsigned integer; once modifications stop the iteration ends within n/COUNT + 12 calls. Non-trivial = an iteration of >= 3 calls with >= 1 addition and >= 1 deletion of other elements between calls; distinct by hash of the case",
     ));
     let mk = |_: usize| Server::start(ServerOpts::default());
     if let Some(r) = replay {
